@@ -366,6 +366,21 @@ Definition ml_insert (w : world) (ir : id) (i : Z) (v : id) : world * bool :=
 Definition ml_append (w : world) (ir v : id) : world * bool :=
   ml_insert w ir (Z.of_nat (length (kids w ir))) v.
 
+(* ListWrapper.__setitem__ (item and plain-slice assignment).  The list the assignment produces is worked out
+   before anything is touched: list places the values (pre ++ vs ++ post), then every value just assigned stays
+   only at the last position it was assigned to -- a module assigned while it sits elsewhere in this very list,
+   or named twice on the right-hand side, is moved, not duplicated (as insert / append / extend move it).
+   _remove then runs for the elements that leave the list, _add for those that enter it (both in list order),
+   and the list is stored last. *)
+Definition assign_slice (l : list id) (lo hi : nat) (vs : list id) : list id :=
+  filter (fun x => negb (mem x vs)) (firstn lo l) ++ dedup vs ++ filter (fun x => negb (mem x vs)) (skipn hi l).
+
+Definition ml_assign (w : world) (ir : id) (new : list id) : world * bool :=
+  let old := kids w ir in
+  let '(w1, ok1) := fold_ok (fun w v => ml_remove_hook w ir v) (filter (fun x => negb (mem x new)) old) w in
+  let '(w2, ok2) := fold_ok (fun w v => ml_add_hook w ir v) (filter (fun x => negb (mem x old)) new) w1 in
+  (set_kids w2 (upd (kids w2) ir new), ok1 && ok2).
+
 (* index normalisation for item access: Some position or IndexError *)
 Definition norm_index (i : Z) (len : nat) : option nat :=
   let n := Z.of_nat len in
@@ -453,7 +468,10 @@ Definition do_set (w : world) (p : id) (fk : list kind) (m : setm) (args : list 
   | SIand => flagged (fold_ok (fun w c => set_discard w p c) (filter (fun c => negb (mem c arg1)) cur) w)
   | SIsub => flagged (fold_ok (fun w c => set_discard w p c) arg1 w)
   | SIxor =>
-    flagged (fold_ok (fun w c => if mem c (field w p fk) then set_discard w p c else set_add w p c) (dedup arg1) w)
+    (* members are taken out before the new elements are put in *)
+    let '(w1, ok1) := fold_ok (fun w c => set_discard w p c) (filter (fun c => mem c cur) (dedup arg1)) w in
+    let '(w2, ok2) := fold_ok (fun w c => set_add w p c) (filter (fun c => negb (mem c cur)) (dedup arg1)) w1 in
+    flagged (w2, ok1 && ok2)
   end.
 
 (* parent property setters *)
@@ -555,32 +573,13 @@ Definition step (w : world) (o : op) : res world :=
   | OModSetItem ir i v =>
     match norm_index i (length (kids w ir)) with
     | None => Err EIndex
-    | Some k =>
-      match nth_error (kids w ir) k with
-      | None => Err EImpossible
-      | Some old =>
-        (* _remove(old); _add(v); _data[i] = v.  The same-list shape (v elsewhere in this list)
-           is the recorded defect D4: the model refuses it. *)
-        if mem v (kids w ir) && negb (v =? old) then Err EImpossible
-        else
-          let '(w1, ok1) := ml_remove_hook w ir old in
-          let '(w2, ok2) := ml_add_hook w1 ir v in
-          flagged (set_kids w2 (upd (kids w2) ir (set_at k v (kids w2 ir))), ok1 && ok2)
-      end
+    | Some k => flagged (ml_assign w ir (assign_slice (kids w ir) k (S k) [v]))
     end
   | OModSetSlice ir a b vs =>
     let len := length (kids w ir) in
     let lo := norm_bound a 0 len in
     let hi := Z.max lo (norm_bound b (Z.of_nat len) len) in
-    let pre := firstn (Z.to_nat lo) (kids w ir) in
-    let victims := firstn (Z.to_nat (hi - lo)) (skipn (Z.to_nat lo) (kids w ir)) in
-    let post := skipn (Z.to_nat hi) (kids w ir) in
-    (* D4 shapes refused: a value that stays elsewhere in this list, or listed twice *)
-    if existsb (fun v => mem v pre || mem v post) vs || negb (Nat.eqb (length (dedup vs)) (length vs)) then Err EImpossible
-    else
-      let '(w1, ok1) := fold_ok (fun w v => ml_remove_hook w ir v) victims w in
-      let '(w2, ok2) := fold_ok (fun w v => ml_add_hook w ir v) vs w1 in
-      flagged (set_kids w2 (upd (kids w2) ir (pre ++ vs ++ post)), ok1 && ok2)
+    flagged (ml_assign w ir (assign_slice (kids w ir) (Z.to_nat lo) (Z.to_nat hi) vs))
   | OModClear ir =>
     (* MutableSequence.clear: pop() from the end until empty *)
     let '(w1, ok) := fold_ok (fun w v => ml_remove_hook w ir v) (rev (kids w ir)) w in
